@@ -315,3 +315,138 @@ theorem boxSum_lift_pair (shape : Nat → Nat) (a : Nat) (ha : a < 3) (A B : (Na
 
 end closed
 end OdlModel.FiniteDiff
+
+/-! ### arrays of ANY ndim (round 4): iterated box sum and fibre lifting -/
+
+namespace OdlModel.FiniteDiff
+open Finset
+section ndN
+variable {K : Type} [CommRing K]
+
+theorem IdxN.set_self (x : IdxN) (a k : Nat) : (x.set a k) a = k := by simp [IdxN.set]
+
+theorem IdxN.set_set (x : IdxN) (a k k' : Nat) : (x.set a k).set a k' = x.set a k' := by
+  funext i; simp only [IdxN.set]; split_ifs <;> rfl
+
+theorem IdxN.set_comm (x : IdxN) {a b : Nat} (h : a ≠ b) (k l : Nat) :
+    (x.set a k).set b l = (x.set b l).set a k := by
+  funext i; simp only [IdxN.set]; split_ifs <;> simp_all
+
+/-- iterated sum over the listed axes: the position on axis `a` runs over `range (shape a)` -/
+def sumAxes (shape : Nat → Nat) : List Nat → (IdxN → K) → IdxN → K
+  | [], F, x => F x
+  | a :: as, F, x => ∑ k ∈ range (shape a), sumAxes shape as F (x.set a k)
+
+/-- plain sum over the index box of an array with `d` axes (any `d`) -/
+def boxSumN (shape : Nat → Nat) (d : Nat) (F : IdxN → K) : K :=
+  sumAxes shape (List.range d) F (fun _ => 0)
+
+theorem sumAxes_zero (shape : Nat → Nat) (l : List Nat) (x : IdxN) :
+    sumAxes shape l (fun _ => (0 : K)) x = 0 := by
+  induction l generalizing x with
+  | nil => rfl
+  | cons a l ih => simp [sumAxes, ih]
+
+theorem sumAxes_add (shape : Nat → Nat) (l : List Nat) (F G : IdxN → K) (x : IdxN) :
+    sumAxes shape l (fun y => F y + G y) x = sumAxes shape l F x + sumAxes shape l G x := by
+  induction l generalizing x with
+  | nil => rfl
+  | cons a l ih => simp [sumAxes, ih, sum_add_distrib]
+
+theorem sumAxes_neg (shape : Nat → Nat) (l : List Nat) (F : IdxN → K) (x : IdxN) :
+    sumAxes shape l (fun y => - F y) x = - sumAxes shape l F x := by
+  induction l generalizing x with
+  | nil => rfl
+  | cons a l ih => simp [sumAxes, ih]
+
+theorem sumAxes_sum (shape : Nat → Nat) (l : List Nat) (s : Finset Nat) (F : Nat → IdxN → K)
+    (x : IdxN) :
+    sumAxes shape l (fun y => ∑ a ∈ s, F a y) x = ∑ a ∈ s, sumAxes shape l (F a) x := by
+  induction l generalizing x with
+  | nil => rfl
+  | cons b l ih =>
+    simp only [sumAxes, ih]
+    rw [sum_comm]
+
+/-- an axis not in the list can be summed innermost -/
+theorem sumAxes_push (shape : Nat → Nat) (a : Nat) (l : List Nat) (ha : a ∉ l) (Φ : IdxN → K)
+    (x : IdxN) :
+    ∑ k ∈ range (shape a), sumAxes shape l Φ (x.set a k)
+      = sumAxes shape l (fun y => ∑ k ∈ range (shape a), Φ (y.set a k)) x := by
+  induction l generalizing x with
+  | nil => rfl
+  | cons b l ih =>
+    have hab : a ≠ b := fun h => ha (h ▸ List.mem_cons_self)
+    have hal : a ∉ l := fun h => ha (List.mem_cons_of_mem _ h)
+    simp only [sumAxes]
+    rw [sum_comm]
+    refine sum_congr rfl (fun j _ => ?_)
+    rw [← ih hal]
+    refine sum_congr rfl (fun k _ => ?_)
+    rw [IdxN.set_comm x hab]
+
+/-- Fibre lifting, any number of axes: a function whose sum along every line of axis `a`
+vanishes sums to zero over any box containing axis `a` once. -/
+theorem sumAxes_fibre_zero (shape : Nat → Nat) (a : Nat) (l : List Nat) (hl : l.Nodup)
+    (ha : a ∈ l) (Φ : IdxN → K)
+    (hΦ : ∀ y : IdxN, ∑ k ∈ range (shape a), Φ (y.set a k) = 0) (x : IdxN) :
+    sumAxes shape l Φ x = 0 := by
+  induction l generalizing x with
+  | nil => simp at ha
+  | cons b l ih =>
+    rw [List.nodup_cons] at hl
+    by_cases hab : b = a
+    · subst hab
+      simp only [sumAxes]
+      rw [sumAxes_push shape b l hl.1]
+      simp only [hΦ]
+      exact sumAxes_zero shape l x
+    · have : a ∈ l := by
+        rcases List.mem_cons.1 ha with h | h
+        · exact absurd h.symm hab
+        · exact h
+      simp only [sumAxes]
+      exact sum_eq_zero (fun k _ => ih hl.2 this _)
+
+/-- Fibre lifting of a 1-d pairing identity along axis `a < d` to the `d`-dimensional box. -/
+theorem boxSumN_lift_pair (shape : Nat → Nat) (d a : Nat) (ha : a < d)
+    (A B : (Nat → K) → Nat → K)
+    (h1 : ∀ f g : Nat → K, ∑ i ∈ range (shape a), (g i * A f i + f i * B g i) = 0)
+    (F G : IdxN → K) :
+    boxSumN shape d (fun x => G x * A (fun q => F (x.set a q)) (x a)
+        + F x * B (fun q => G (x.set a q)) (x a)) = 0 := by
+  unfold boxSumN
+  refine sumAxes_fibre_zero shape a _ List.nodup_range (List.mem_range.2 ha) _ (fun y => ?_) _
+  simp only [IdxN.set_set, IdxN.set_self]
+  exact h1 (fun q => F (y.set a q)) (fun k => G (y.set a k))
+
+theorem boxSumN_add (shape : Nat → Nat) (d : Nat) (F G : IdxN → K) :
+    boxSumN shape d (fun x => F x + G x) = boxSumN shape d F + boxSumN shape d G :=
+  sumAxes_add shape _ F G _
+
+theorem boxSumN_neg (shape : Nat → Nat) (d : Nat) (F : IdxN → K) :
+    boxSumN shape d (fun x => - F x) = - boxSumN shape d F :=
+  sumAxes_neg shape _ F _
+
+theorem boxSumN_sum (shape : Nat → Nat) (d : Nat) (s : Finset Nat) (F : Nat → IdxN → K) :
+    boxSumN shape d (fun x => ∑ a ∈ s, F a x) = ∑ a ∈ s, boxSumN shape d (F a) :=
+  sumAxes_sum shape _ s F _
+
+/-- the in-order accumulation `out = 0; for a: out += g a` is the sum -/
+theorem foldl_add_eq_sum (g : Nat → K) (n : Nat) :
+    (List.range n).foldl (fun s a => s + g a) 0 = ∑ a ∈ range n, g a := by
+  induction n with
+  | zero => rfl
+  | succ n ih => rw [List.range_succ, List.foldl_append, ih, sum_range_succ]; rfl
+
+/-- the in-order accumulation `out = 0; for a: out += u a; out -= v a` -/
+theorem foldl_add_sub_eq_sum (u v : Nat → K) (n : Nat) :
+    (List.range n).foldl (fun s a => s + u a - v a) 0 = ∑ a ∈ range n, (u a - v a) := by
+  induction n with
+  | zero => rfl
+  | succ n ih =>
+    rw [List.range_succ, List.foldl_append, ih, sum_range_succ]
+    simp only [List.foldl_cons, List.foldl_nil]; ring
+
+end ndN
+end OdlModel.FiniteDiff
